@@ -66,6 +66,18 @@ def check_offsets(case: typing.Any, ctx: Ctx) -> Info:
     start: typing.Any = ("pad", _base_tree(base), 8)
     if spec[0] == "delim":
         start = ("cat", (start, ("leaf", (32,))))
+    # callers are free to stop consuming the iterator early (all() / any() / next() / break): an abandoned iteration, from the
+    # same base or the default one, must not show in what a later, complete iteration yields
+    for k in case.get("abandon", []):
+        def partial() -> int:
+            it = t.iterate_fields_with_offsets(pydsdl.BitLengthSet(base)) if k % 2 else t.iterate_fields_with_offsets()
+            n_taken = 0
+            for _ in range((k // 2) % (len(t.fields) + 1)):
+                next(it)
+                n_taken += 1
+            return n_taken
+
+        guarded(partial, what="iterate_fields_with_offsets:partial")
     got, _ = guarded(lambda: list(t.iterate_fields_with_offsets(pydsdl.BitLengthSet(base))), what="iterate_fields_with_offsets")
     fields = t.fields
     require(len(got) == len(fields) == len(body[1]), "field-count", len(body[1]), len(got), name)
@@ -89,6 +101,7 @@ def check_offsets(case: typing.Any, ctx: Ctx) -> Info:
     # default base is {0}
     got0, _ = guarded(lambda: list(t.iterate_fields_with_offsets()), what="iterate_fields_with_offsets-default")
     start0: typing.Any = ("leaf", (32,)) if spec[0] == "delim" else ("leaf", (0,))
+    require([f for f, _ in got0] == list(fields) and all(f is g for (f, _), g in zip(got0, fields)), "field-count:default-base", [x.name for x in fields], [f.name for f, _ in got0], name)
     for i, (f, off) in enumerate(got0):
         _check_offset(off, field_offset_tree(body, i, start0), ctx.extra, "field %d of %s default base" % (i, name))
     # ground truth from real encodings (reference encoder): start bit of every top-level field is in the reported set
@@ -277,6 +290,7 @@ def _cases() -> st.SearchStrategy:
                     st.lists(st.integers(0, 130), min_size=1, max_size=3, unique=True).map(sorted),
                 ),
                 "values": st.lists(gt.values(layout.freeze(spec)), min_size=1, max_size=4),
+                "abandon": st.one_of(st.just([]), st.lists(st.integers(0, 40), min_size=1, max_size=3)),
             }
         ).flatmap(lambda c: more_bases(c["base"]).map(lambda m: dict(c, more_bases=m)))
 
